@@ -288,54 +288,8 @@ var genScenarios = map[string]func(g *Gen) []scriptStep{
 	},
 	// a snapshot taken after out-of-order acks (non-empty acknowledged-message list), a sibling
 	// subscription of the same topic still holding those messages, seeks of either to it (C13, C02)
-	"snapshot-bystander": func(g *Gen) []scriptStep {
-		seekWho := g.pick([]string{sS0, sS0, sS1})
-		return []scriptStep{
-			opStep(&Op{Kind: "CreateTopic", Name: sT0}),
-			subStep(&SubReq{Name: sS0, Topic: sT0}), subStep(&SubReq{Name: sS1, Topic: sT0, Ordered: g.chance(0.3)}),
-			pubStep(sT0, "", "k1", ""), pubStep(sT0, "k1"),
-			pullStep(sS0, 10),
-			func(g *Gen, d *Dump, vnow int64) Action {
-				// acknowledge everything but the oldest message on s0
-				s := d.subByName(sS0)
-				var rows []DelRow
-				for _, x := range d.Dels {
-					if s != nil && x.Sub == s.ID && x.Completed == nil && x.Attempts > 0 {
-						rows = append(rows, x)
-					}
-				}
-				var ids []string
-				for _, x := range rows {
-					oldest := true
-					for _, y := range rows {
-						if y.Published < x.Published {
-							oldest = false
-						}
-					}
-					if !oldest {
-						ids = append(ids, x.ID.String())
-					}
-				}
-				return Action{Op: &Op{Kind: "Ack", Name: sS0, AckIDs: ids}}
-			},
-			// one more message, never pulled: the OLDEST unacknowledged one is leased (its next attempt
-			// lies in the future), a newer one is not -- the snapshot's watermark is still the oldest
-			pubStep(sT0, ""),
-			opStep(&Op{Kind: "CreateSnap", Name: "projects/p/snapshots/n0", Name2: sS0}),
-			pubStep(sT0, ""), pullStep(sS0, 10), ackLeased(sS0, "Ack", 0, false),
-			opStep(&Op{Kind: "SeekSnap", Name: seekWho, Name2: "projects/p/snapshots/n0"}),
-			pullStep(sS1, 10), pullStep(sS0, 10),
-			// ... and the other way round: each subscription is once the seeker, once the bystander
-			func(g *Gen, d *Dump, vnow int64) Action {
-				other := sS0
-				if seekWho == sS0 {
-					other = sS1
-				}
-				return Action{Op: &Op{Kind: "SeekSnap", Name: other, Name2: "projects/p/snapshots/n0"}}
-			},
-			pullStep(sS0, 10), pullStep(sS1, 10),
-		}
-	},
+	"snapshot-bystander":     func(g *Gen) []scriptStep { return snapshotBystander(g, sS0) },
+	"snapshot-bystander-rev": func(g *Gen) []scriptStep { return snapshotBystander(g, sS1) },
 	// same-key replay (C05): the successor has been delivered once when a seek brings its
 	// acknowledged predecessor back; the successor's lease lapses while the predecessor is
 	// outstanding again
@@ -841,7 +795,7 @@ var genScenarios = map[string]func(g *Gen) []scriptStep{
 	},
 }
 
-var scenarioNames = []string{"ordered-replay", "ordered-prune", "snapshot-sibling-acks", "retry-replaced", "dl-then-prune-messages", "prune-expired-minage", "nack-mixed-attempts", "nack-after-ack-dl", "dl-shared-target", "dl-self-loop", "filter-literals", "ttl-raised", "prune-topics-batch-one", "dl-deleted-topic", "dl-ordered-target", "dl-filtered-target", "snapshot-bystander", "seek-revive-late", "idle-expired-live", "filter-replaced", "ordered-chain", "lease-changes", "ack-mixed-stale", "nack-cross-subs", "recreated-twice", "seek-delayed"}
+var scenarioNames = []string{"ordered-replay", "ordered-prune", "snapshot-sibling-acks", "retry-replaced", "dl-then-prune-messages", "prune-expired-minage", "nack-mixed-attempts", "nack-after-ack-dl", "dl-shared-target", "dl-self-loop", "filter-literals", "ttl-raised", "prune-topics-batch-one", "dl-deleted-topic", "dl-ordered-target", "dl-filtered-target", "snapshot-bystander", "snapshot-bystander-rev", "seek-revive-late", "idle-expired-live", "filter-replaced", "ordered-chain", "lease-changes", "ack-mixed-stale", "nack-cross-subs", "recreated-twice", "seek-delayed"}
 
 // scenariosFor lists the templates a generator profile may start with
 func scenariosFor(profile string) []string {
@@ -849,7 +803,7 @@ func scenariosFor(profile string) []string {
 	case "delivery", "general", "prune":
 		return scenarioNames
 	case "seek":
-		return []string{"seek-revive-late", "ordered-chain", "snapshot-bystander", "ordered-replay", "seek-retention", "snapshot-sibling-acks", "seek-delayed"}
+		return []string{"seek-revive-late", "ordered-chain", "snapshot-bystander", "snapshot-bystander-rev", "ordered-replay", "seek-retention", "snapshot-sibling-acks", "seek-delayed"}
 	case "names":
 		return []string{"idle-expired-live", "topic-recreated", "recreated-twice"}
 	case "config":
@@ -859,4 +813,54 @@ func scenariosFor(profile string) []string {
 		return []string{"ordered-prune", "dl-then-prune-messages", "prune-expired-minage", "prune-topics-batch-one", "dl-shared-target", "dl-self-loop", "dl-deleted-topic", "dl-ordered-target", "dl-filtered-target", "idle-expired-live", "filter-replaced"}
 	}
 	return nil
+}
+
+// a snapshot of s0 with a non-empty acknowledged list, then both subscriptions of the topic seek to
+// it, [seekWho] first: each is once the seeker and once the bystander (C01, C02, C03, C13)
+func snapshotBystander(g *Gen, seekWho string) []scriptStep {
+	return []scriptStep{
+		opStep(&Op{Kind: "CreateTopic", Name: sT0}),
+		subStep(&SubReq{Name: sS0, Topic: sT0}), subStep(&SubReq{Name: sS1, Topic: sT0, Ordered: g.chance(0.3)}),
+		pubStep(sT0, "", "k1", ""), pubStep(sT0, "k1"),
+		pullStep(sS0, 10),
+		func(g *Gen, d *Dump, vnow int64) Action {
+			// acknowledge everything but the oldest message on s0
+			s := d.subByName(sS0)
+			var rows []DelRow
+			for _, x := range d.Dels {
+				if s != nil && x.Sub == s.ID && x.Completed == nil && x.Attempts > 0 {
+					rows = append(rows, x)
+				}
+			}
+			var ids []string
+			for _, x := range rows {
+				oldest := true
+				for _, y := range rows {
+					if y.Published < x.Published {
+						oldest = false
+					}
+				}
+				if !oldest {
+					ids = append(ids, x.ID.String())
+				}
+			}
+			return Action{Op: &Op{Kind: "Ack", Name: sS0, AckIDs: ids}}
+		},
+		// one more message, never pulled: the OLDEST unacknowledged one is leased (its next attempt
+		// lies in the future), a newer one is not -- the snapshot's watermark is still the oldest
+		pubStep(sT0, ""),
+		opStep(&Op{Kind: "CreateSnap", Name: "projects/p/snapshots/n0", Name2: sS0}),
+		pubStep(sT0, ""), pullStep(sS0, 10), ackLeased(sS0, "Ack", 0, false),
+		opStep(&Op{Kind: "SeekSnap", Name: seekWho, Name2: "projects/p/snapshots/n0"}),
+		pullStep(sS1, 10), pullStep(sS0, 10),
+		// ... and the other way round: each subscription is once the seeker, once the bystander
+		func(g *Gen, d *Dump, vnow int64) Action {
+			other := sS0
+			if seekWho == sS0 {
+				other = sS1
+			}
+			return Action{Op: &Op{Kind: "SeekSnap", Name: other, Name2: "projects/p/snapshots/n0"}}
+		},
+		pullStep(sS0, 10), pullStep(sS1, 10),
+	}
 }
